@@ -558,7 +558,11 @@ func newSSAStyleFromString(content string, format map[int]string) (s *ssaStyle, 
 		// Bool
 		case ssaStyleFormatNameBold, ssaStyleFormatNameItalic, ssaStyleFormatNameStrikeout,
 			ssaStyleFormatNameUnderline:
-			var b = item == "-1"
+			// -1 is true and 0 is false, but any non-zero value (this package writes 1) is understood as true
+			var b bool
+			if v, errAtoi := strconv.Atoi(item); errAtoi == nil && v != 0 {
+				b = true
+			}
 			switch attr {
 			case ssaStyleFormatNameBold:
 				s.bold = astikit.BoolPtr(b)
